@@ -17,8 +17,9 @@ tvars == <<vars, l>>
 
 Range(f) == {f[i] : i \in DOMAIN f}
 
-\* JSON form of the configurations of a Net line -> [conf id -> [node -> SUBSET Types]]
-ConfsOf(x) == [c \in DOMAIN x.confs |-> [n \in DOMAIN x.confs[c] |-> Range(x.confs[c][n]) \cap Types]]
+\* JSON form of the configurations of a Net line -> [conf id -> [node -> [types, addrs]]]
+ConfsOf(x) == [c \in DOMAIN x.confs |->
+                 [n \in DOMAIN x.confs[c] |-> [types |-> Range(x.confs[c][n].t) \cap Types, addrs |-> Range(x.confs[c][n].a)]]]
 
 \* <trace>.hdr is a one-line header written by the orchestrator: all node ids and configuration ids of
 \* the trace (scanning the trace inside a constant definition would re-read the file for every line)
@@ -29,6 +30,7 @@ TraceParts == 0..2999          \* nodeconf.PartitionCount
 
 Fresh(x) == /\ pub = ConfsOf(x)
             /\ last = [p \in Participants |-> NoConf] /\ stored = [p \in Participants |-> NoConf]
+            /\ priv = [p \in Participants |-> NoConf]
             /\ part = <<>> /\ ring = <<>> /\ obs = NoConf
 
 TraceInit == l = 2 /\ Trace[1].ev = "Net" /\ Fresh(Trace[1])
@@ -39,6 +41,7 @@ TrNet == /\ IsEvent("Net")
          /\ LET x == Trace[l] IN
               /\ pub' = ConfsOf(x)
               /\ last' = [p \in Participants |-> NoConf] /\ stored' = [p \in Participants |-> NoConf]
+              /\ priv' = [p \in Participants |-> NoConf]
               /\ part' = <<>> /\ ring' = <<>> /\ obs' = NoConf
 
 TrBoot    == IsEvent("Boot")    /\ BootWith(Trace[l].p, Trace[l].app)
@@ -48,7 +51,7 @@ TrRestart == IsEvent("Restart") /\ Restart(Trace[l].p)
 \* the recorded answer, as observed (nothing is recomputed)
 TrQuery == /\ IsEvent("Query")
            /\ LET x == Trace[l] IN
-                /\ x.cid \in DOMAIN pub
+                /\ x.cid \in DOMAIN pub \/ (x.cid = Merged /\ priv[x.p] # NoConf)
                 /\ Answer(x.p, x.space, x.cid, x.part, Range(x.members), Range(x.fileV2Ids), Range(x.nodeIds), x.resp)
 
 TraceNext == TrNet \/ TrBoot \/ TrUpdate \/ TrRestart \/ TrQuery
